@@ -344,7 +344,7 @@ func runC13() *RunResult {
 		case 0:
 			p = &PathSpec{Text: "$", Prefix: "$", SingleValued: true}
 		default:
-			p = genPath(cfg.Funcs, false, 4, 1)
+			p = genPathFor(st.real, cfg.Funcs, false, 4, 1)
 		}
 		t.ops = append(t.ops, retrieve(p, cfg))
 		cases = append(cases, fnv(p.Text+"|"+snap))
@@ -424,7 +424,7 @@ func runC13() *RunResult {
 			t.ops = append(t.ops, o)
 		default: // re-retrieval
 			cfg := CfgSpec{Present: true}
-			p := genPath(0, false, 4, 0)
+			p := genPathFor(st.real, 0, false, 4, 0)
 			t.ops = append(t.ops, retrieve(p, cfg))
 		}
 	}
